@@ -80,6 +80,7 @@ type End struct {
 	NRead, NWritten int
 	// fault plan
 	ReadFailAfter int // >=0: Read fails once this many envelopes were delivered
+	ReadFailErr   error // the error the failing Read returns (nil: ErrReadFault); real transports fail with io.EOF, wrapped errors, ...
 	WriteFailAt   int // >=0: the k-th Write (0-based) and all later ones fail
 	FailNextWrites     int  // the next n Writes fail (then the plan continues)
 	WriteFailsWithRead bool // once a Read has failed by plan, Writes fail too
@@ -131,6 +132,9 @@ func (e *End) Break() {
 func (e *End) Read(ctx context.Context) (*Rpc, error) {
 	if e.ReadFailAfter >= 0 && e.NRead >= e.ReadFailAfter {
 		e.ReadFailed = true
+		if e.ReadFailErr != nil {
+			return nil, e.ReadFailErr
+		}
 		return nil, ErrReadFault
 	}
 	if e.down {
